@@ -40,6 +40,8 @@ TEXTS = [
     ["He said", "...", "nothing"], ["?!"], ["♪ ♪"], ["100% sure %s %d %%"], ["copy C:\\new\\notes.txt \\t \\N"],
     # one line made of several adjacent text nodes: a metacharacter sequence may only come into being at the joint
     [("a --", "> b"), "second"], [("x &", "amp; y"), ("1 <", "i> 2")],
+    # captions that display nothing (the 'clear' cues of SAMI and DFXP sources): still one timed cue each
+    ["\xa0"], [" "],
 ]
 BAR = ["a|b"]
 
@@ -71,8 +73,10 @@ class World:
                 nodes.append(self.ev("CaptionNode.create_text(t)", t=l))
         return self.ev("Caption(s, e, n)", s=s, e=e, n=nodes)
 
-    def write(self, fn, caps):
-        cs = self.ev("CaptionSet({'en-US': CaptionList(cs)})", cs=[self.caption(*c) for c in caps])
+    def write(self, fn, caps, other_empty_language=False):
+        # (other_empty_language: the set also holds a language without captions, listed after the written one)
+        cs = self.ev("CaptionSet({'en-US': CaptionList(cs), 'zz': CaptionList([])})" if other_empty_language else
+                     "CaptionSet({'en-US': CaptionList(cs)})", cs=[self.caption(*c) for c in caps])
         self.n += 1
         return self.F.call_function(fn, [cs], {}, self_value=Stub("writer", {}, cls=fn.cls))
 
@@ -185,11 +189,16 @@ def explore(ctx, thorough):
         fn = ctx.index.get_function(path, q)
         bad = {"cues": [], "times": [], "grammar": [], "text": []}
         n = 0
-        for caps in caption_sets(texts, thorough):
+        jobs = []
+        for i_, caps in enumerate(caption_sets(texts, thorough)):
+            jobs.append((caps, False))
+            if name != "SRT" and i_ % 9 == 0:         # (SRT writes every language of the set, one after the other)
+                jobs.append((caps, True))
+        for caps, other in jobs:
             n += 1
-            case = {"captions": [(s, e, ls) for s, e, ls in caps]}
+            case = {"captions": [(s, e, ls) for s, e, ls in caps], **({"the set also holds": "a language without captions"} if other else {})}
             try:
-                doc = W.write(fn, caps)
+                doc = W.write(fn, caps, other)
             except FoldRaise as e:
                 bad["cues"].append(dict(case, raises=e.exc_name or str(e)))
                 continue
